@@ -117,4 +117,16 @@ def c18(prop, tier, res, replay=None):
         "file replacement: the directory is read at every verifhook point of writeFileAtomic (app and MCP copies), and child processes are SIGKILLed at each point; this shows process-crash atomicity (rename(2) on one filesystem) - behaviour on power loss (fsync durability) is the OS's and is not observable here"], replay)
 
 
-TABLE = {"C18": c18, "C07": c07, "C20": c20, "C11": c11, "C06": c06, "C16": c16, "C10": c10, "C08": c08, "C09": c09, "C17": c17}
+PUBLISH = dict(sub="publish", mode="publish", family="publish", shards=q(4, 16),
+               args=lambda tier, sd, sh: ["-seed", sd * 1000 + sh, "-configs", 30 if tier == "quick" else 250, "-requests", 25 if tier == "quick" else 40, "-big", 1 if tier == "quick" else 4] + (["-sweeps"] if sh == 0 else []),
+               key_fields=["k", "case", "req"], class_clauses={"first-offender-by-pass"})
+
+
+def c15(prop, tier, res, replay=None):
+    return pure.check_cases(prop, tier, res, [PUBLISH], [
+        "modelled: the global direct path POST /messages/publish (three validation passes + one EnqueueBatch against the queue model, with the implementation's eviction choice); the endpoint-scoped path is driven through the real handler too but only the all-or-nothing / shape predicate is evaluated on it (its selector rules are not modelled)",
+        "not modelled (answer before the modelled path): global_publish_disabled, audit header policy, JSON decoding errors and body-size limit, management-model cross checks (SourceMismatch, fail-closed resolver), a LookupMessages error, the non-batch fallback loop for stores without EnqueueBatch (every shipped store has it)",
+        "configurations are generated as text through the real parser/compiler/runtime wiring (publish_policy, route publish flags, managed labels, max_body/max_headers); stores are the real memory and SQLite stores with small max_depth (reject and drop_oldest), pre-filled; timestamps are RFC 3339 within 1000 s of the clock; strings.TrimSpace is modelled on the white-space set {SP,\\t,\\n,\\v,\\f,\\r,U+0085,U+00A0} (generated ids/targets use only those)"], replay)
+
+
+TABLE = {"C18": c18, "C15": c15, "C07": c07, "C20": c20, "C11": c11, "C06": c06, "C16": c16, "C10": c10, "C08": c08, "C09": c09, "C17": c17}
